@@ -427,3 +427,399 @@ def witnesses():
     l2 = [ts(i) + b" " + b"x" * (4050 - TSLEN - 2) + b"\n" for i in range(2)]
     WITNESS["F3c"] = (b"".join(l2), {l: instant(i) for i, l in enumerate(l2)}, BLOCKSZ_DEF)
     return WITNESS
+
+
+# ----------------------------------------------------------------------------- cache mode (WP-A)
+# Operation sequences on ONE LineReader and ONE SyslineReader with the counters of summary() after
+# every operation; evaluated against Model/Caches.v by Corr/C02c.v (cache_bad).
+
+COQ_HDR_C = vlib.COQ_PRINT_HDR + ("From Coq Require Import String List NArith ZArith.\nImport ListNotations.\n"
+                                  "From S4.Model Require Import Caches.\nFrom S4.Corr Require Import C02 C02c.\n"
+                                  "Open Scope string_scope.\nOpen Scope N_scope.\n")
+
+CACHE_PATHS = {0: "L:lru", 1: "L:eof", 2: "L:lines", 3: "L:by_end", 4: "L:A0", 5: "L:A1a", 6: "L:A1b", 7: "L:search",
+               8: "L:in_block_done", 9: "L:fail",
+               10: "LB:lru", 11: "LB:eof", 12: "LB:lines", 13: "LB:by_end", 14: "LB:A0", 15: "LB:A1a", 16: "LB:A1b",
+               17: "LB:search(not stored)", 18: "LB:done/partial", 19: "LB:fail",
+               20: "S:lru", 21: "S:range", 22: "S:syslines", 23: "S:search", 24: "S:done", 25: "S:in_block_done",
+               26: "S:PANIC(dropped range)", 27: "S:fail",
+               30: "SB:lru", 31: "SB:range", 32: "SB:syslines", 33: "SB:search", 34: "SB:done", 35: "SB:done/partial",
+               36: "SB:PANIC(dropped range)", 37: "SB:fail", 40: "driver", 41: "unit"}
+
+
+def line_starts(f):
+    out, off = [], 0
+    for l in py_lines(f):
+        out.append(off); off += len(l)
+    return out
+
+
+def cache_ops(rng, f, tab, bs, n_ops, profile):
+    """profile 'safe': find_line / find_line_in_block / find_sysline anywhere, LRU switches, drops, the driver;
+    find_sysline_in_block only in the block-zero-analysis pattern (from 0, then at each returned offset) at the
+    very beginning.  profile 'wild': find_sysline_in_block anywhere as well."""
+    n = len(f)
+    starts = line_starts(f)
+    _, gs = py_groups(f, tab)
+    nblocks = (n + bs - 1) // bs if bs else 0
+    ops = []
+
+    def some_fo():
+        r = rng.random()
+        if r < 0.4 and starts:
+            return max(0, rng.choice(starts) + rng.choice([0, 0, 0, 1, -1]))
+        if r < 0.55:
+            return max(0, rng.choice([0, n - 1, n, n + 1, bs - 1, bs, bs + 1, 2 * bs, n - 2]))
+        if r < 0.7 and ops and len(ops[-1]) > 1 and isinstance(ops[-1][1], int):
+            return ops[-1][1]
+        return rng.randrange(0, n + 2)
+
+    if rng.random() < 0.35:
+        # the gate pattern: in-block line finds from 0, then in-block sysline finds from 0 (offsets are
+        # filled in while running: ("CLBn",) / ("CSBn",) mean "at the offset the previous one returned")
+        for _ in range(rng.choice([1, 2, 3, 5])):
+            ops.append(("CLBn",))
+        for _ in range(rng.choice([1, 2, 3])):
+            ops.append(("CSBn",))
+    # drops: none in 45 % of the sequences; after a drop most find_sysline calls lie beyond what was dropped
+    # (a call inside a dropped range panics and ends the sequence: wanted now and then, not always)
+    drops = rng.random() >= 0.45
+    kinds = ["CL"] * 5 + ["CLB"] * 2 + ["CS"] * 7 + ["CLE", "CSE"] + (["CDD", "CDS"] if drops else [])
+    if profile == "wild":
+        kinds += ["CSB"] * 4
+    safe_from = 0
+    sweep = rng.random() < 0.3          # a forward sweep over every line start: fills and overflows the LRU caches
+    if sweep:
+        for st_ in starts[:40]:
+            ops.append((rng.choice(["CL", "CL", "CS"]), st_))
+    for _ in range(n_ops):
+        k = rng.choice(kinds)
+        if k in ("CL", "CLB", "CS", "CSB"):
+            fo = some_fo()
+            if k in ("CS", "CSB") and safe_from and rng.random() < 0.8:
+                fo = min(n + 1, safe_from + rng.randrange(0, max(1, n + 1 - min(n, safe_from))))
+            ops.append((k, fo))
+        elif k in ("CLE", "CSE"):
+            ops.append((k, rng.choice([0, 1])))
+        elif k == "CDD":
+            bo = rng.randrange(0, nblocks + 1)
+            ops.append((k, bo)); safe_from = max(safe_from, min(n, (bo + 1) * bs))
+        elif k == "CDS":
+            begs, off = [], len(b"".join(py_groups(f, tab)[0]))
+            ends = []
+            for g in gs:
+                begs.append(off); off += sum(len(l) for l in g[1]); ends.append(off)
+            if begs and rng.random() < 0.8:
+                i = rng.randrange(len(begs))
+                ops.append((k, begs[i])); safe_from = max(safe_from, ends[i])
+            else:
+                ops.append((k, some_fo()))
+    if rng.random() < 0.5:
+        ops.append(("CRD", rng.choice(["-", "1", "1", "10", "011", "1101"])))
+        if rng.random() < 0.5:
+            ops.append(("CS", some_fo()))
+            ops.append(("CL", some_fo()))
+    return ops
+
+
+def oracle_candidates(f, ops):
+    """byte strings other than whole lines that find_*_in_block may hand to the timestamp parser:
+    the partial line [line begin .. requested offset]"""
+    starts = line_starts(f)
+    cands = set()
+    for o in ops:
+        if o[0] in ("CLB", "CSB") and isinstance(o[1], int) and o[1] < len(f):
+            lb = max(s for s in starts if s <= o[1])
+            cands.add(bytes(f[lb:o[1] + 1]))
+    return cands
+
+
+def _ints(s):
+    return [int(x) for x in s.split(",")]
+
+
+def parse_cache_answer(op, s):
+    """-> dict(kind, res, part/pf, cnt) ; res None = Done ; kind 'PANIC' / 'ERR'"""
+    p = s.split("\t")
+    if len(p) < 2 or p[1] == "PANIC":
+        return dict(kind="PANIC")
+    k = p[0]
+    if p[1] in ("Err", "NoReader", "LOOP"):
+        return dict(kind="ERR", what=p[1])
+    if k == "CL":
+        if p[1] == "Done":
+            return dict(kind=k, res=None, cnt=_ints(p[2]))
+        return dict(kind=k, res=tuple(int(x) for x in p[2:8]) + (p[8],), cnt=_ints(p[9]))
+    if k == "CLB":
+        if p[1] == "Done":
+            part = None if p[2] == "-" else (lambda a: (int(a[1]), int(a[2]), a[3]))(p[2].split(","))
+            return dict(kind=k, res=None, part=part, cnt=_ints(p[3]))
+        return dict(kind=k, res=tuple(int(x) for x in p[2:8]) + (p[8],), part=None, cnt=_ints(p[10]))
+    if k == "CS":
+        if p[1] == "Done":
+            return dict(kind=k, res=None, cnt=_ints(p[2]))
+        return dict(kind=k, res=tuple(int(x) for x in p[2:7]) + (p[7],), cnt=_ints(p[8]))
+    if k == "CSB":
+        if p[1] == "Done":
+            return dict(kind=k, res=None, pf=p[2] == "1", cnt=_ints(p[3]))
+        return dict(kind=k, res=tuple(int(x) for x in p[2:7]) + (p[7],), pf=p[8] == "1", cnt=_ints(p[9]))
+    if k in ("CLE", "CSE", "CDD", "CDS"):
+        return dict(kind=k, cnt=_ints(p[2]))
+    if k == "CRD":
+        return dict(kind=k, cnt=_ints(p[2]), items=parse_items(p[4:]))
+    return dict(kind="ERR", what=s[:40])
+
+
+def run_cache_cases(cases, scratch, timeout=900, per_cmd=20):
+    """cases: [(bs, f, table, ops)].  Runs each sequence on fresh readers (one harness process, one
+    command at a time where an offset depends on the previous answer).  Returns (answers, tables, ops) with
+    the ops made concrete, sequences cut after a panic / error / hang (an operation that does not answer
+    within per_cmd seconds: the harness is restarted), and the tables extended by the oracle's answers
+    for partial-line byte strings; or (None, error text, None)."""
+    import subprocess, select, time
+
+    class Hang(Exception):
+        pass
+
+    state = {"proc": None, "buf": b""}
+
+    def start():
+        state["proc"] = subprocess.Popen([vlib.harness_bin("c02"), scratch], stdin=subprocess.PIPE,
+                                         stdout=subprocess.PIPE, stderr=subprocess.DEVNULL)
+        state["buf"] = b""
+
+    def stop():
+        p = state["proc"]
+        if p is not None:
+            try:
+                p.kill(); p.wait(timeout=10)
+            except Exception:
+                pass
+        state["proc"] = None
+
+    def ask(cmd):
+        p = state["proc"]
+        p.stdin.write((cmd + "\n").encode()); p.stdin.flush()
+        deadline = time.time() + per_cmd
+        while b"\n" not in state["buf"]:
+            left = deadline - time.time()
+            r, _, _ = select.select([p.stdout], [], [], max(0.0, left))
+            if not r:
+                raise Hang(cmd[:60])
+            chunk = os.read(p.stdout.fileno(), 1 << 16)
+            if not chunk:
+                raise RuntimeError("harness c02 ended while answering %r" % cmd[:60])
+            state["buf"] += chunk
+        line, state["buf"] = state["buf"].split(b"\n", 1)
+        return line.decode()
+
+    all_ans, all_tab, all_ops = [], [], []
+    t_end = time.time() + timeout
+    hangs = 0
+    try:
+        start()
+        for bs, f, tab, ops in cases:
+            if hangs >= 3:
+                break                      # three hanging sequences are evidence enough; the rest is skipped
+            if time.time() > t_end:
+                raise RuntimeError("cache mode ran longer than %d s" % timeout)
+            tab = dict(tab)
+            ans, cops = [], []
+            try:
+                ask("F\t" + f.hex())
+                if not ask("B\t%d" % bs).endswith("OK"):
+                    raise RuntimeError("harness c02 could not open readers at blocksz %d" % bs)
+                next_lb, next_sb = 0, 0
+                for o in ops:
+                    if o[0] == "CLBn":
+                        if next_lb is None:
+                            continue               # the pattern ends at the first Done
+                        o = ("CLB", next_lb)
+                    elif o[0] == "CSBn":
+                        if next_sb is None:
+                            continue
+                        o = ("CSB", next_sb)
+                    cops.append(o)
+                    a = parse_cache_answer(o, ask("%s\t%s" % (o[0], o[1])))
+                    ans.append(a)
+                    if a["kind"] in ("PANIC", "ERR"):
+                        break
+                    if o[0] == "CLB":
+                        next_lb = a["res"][0] if a["res"] else None
+                    if o[0] == "CSB":
+                        next_sb = a["res"][0] if a["res"] else None
+                for c in sorted(oracle_candidates(f, cops)):
+                    if c not in tab and len(c) >= 2:
+                        r = ask("T\t" + c.hex()).split("\t")[1]
+                        if r not in ("None", "PANIC"):
+                            tab[c] = int(r)
+            except Hang:
+                # the operation never answered: record it, restart the harness for the next case
+                while len(ans) < len(cops):
+                    ans.append(dict(kind="ERR", what="HANG (no answer within %d s)" % per_cmd))
+                hangs += 1
+                stop(); start()
+            all_ans.append(ans); all_tab.append(tab); all_ops.append(cops)
+    except (RuntimeError, OSError, IndexError, ValueError) as e:
+        stop()
+        return None, "harness c02 (cache mode): %s" % e, None
+    stop()
+    return all_ans, all_tab, all_ops
+
+
+def _coq_list(xs):
+    return "[" + "; ".join(str(x) for x in xs) + "]"
+
+
+def _coq_lans(r):
+    return "None" if r is None else '(Some (%d, %d, %d, %d, %d, %d, "%s"))' % r
+
+
+def _coq_sans(r):
+    return "None" if r is None else '(Some (%d, %d, %d, %d, %d%%Z, "%s"))' % r
+
+
+def coq_cop(o):
+    k = o[0]
+    if k in ("CL", "CLB", "CS", "CSB", "CDD", "CDS"):
+        return "(%s %d)" % ({"CL": "OL", "CLB": "OLB", "CS": "OS", "CSB": "OSB", "CDD": "ODD", "CDS": "ODS"}[k], o[1])
+    if k in ("CLE", "CSE"):
+        return "(%s %s)" % ("OLE" if k == "CLE" else "OSE", "true" if o[1] else "false")
+    return "(ORD [%s])" % "; ".join("true" if c == "1" else "false" for c in o[1] if c in "01")
+
+
+def coq_iop(o, a):
+    k = o[0]
+    if a["kind"] == "PANIC":
+        return "IPANIC %s" % coq_cop(o)
+    c = _coq_list(a["cnt"])
+    if k == "CL":
+        return "IL %d %s %s" % (o[1], _coq_lans(a["res"]), c)
+    if k == "CLB":
+        part = "None" if a["part"] is None else '(Some (%d, %d, "%s"))' % a["part"]
+        return "ILB %d %s %s %s" % (o[1], _coq_lans(a["res"]), part, c)
+    if k == "CS":
+        return "IS %d %s %s" % (o[1], _coq_sans(a["res"]), c)
+    if k == "CSB":
+        return "ISB %d %s %s %s" % (o[1], _coq_sans(a["res"]), "true" if a["pf"] else "false", c)
+    if k in ("CLE", "CSE"):
+        return "%s %s %s" % ("ILE" if k == "CLE" else "ISE", "true" if o[1] else "false", c)
+    if k in ("CDD", "CDS"):
+        return "%s %d %s" % ("IDD" if k == "CDD" else "IDS", o[1], c)
+    plan = "[%s]" % "; ".join("true" if ch == "1" else "false" for ch in o[1] if ch in "01")
+    return "IRD %s [%s] %s" % (plan, "; ".join('(%d, %d, %d, %d%%Z, "%s")' % it for it in a["items"]), c)
+
+
+def coq_cache_cases(cases):
+    """cases: (bs, file, table, [(op, answer)])"""
+    rows = []
+    for bs, f, tab, oa in cases:
+        rows.append('(%d, "%s", %s, [%s])' % (bs, f.hex(), coq_table(tab), ";\n   ".join(coq_iop(o, a) for o, a in oa)))
+    return COQ_HDR_C + "Definition cases : list ccase := [\n%s\n].\nEval vm_compute in (cache_bad cases).\n" % ";\n".join(rows)
+
+
+def py_spec_find_line(f, fo):
+    """Spec/LinesSpec.v spec_find_line: (fo_next, beg, end, bytes) | None"""
+    if fo >= len(f):
+        return None
+    b = f.rfind(b"\n", 0, fo) + 1
+    e = f.find(b"\n", fo)
+    e = len(f) - 1 if e < 0 else e
+    return (e + 1, b, e, bytes(f[b:e + 1]))
+
+
+def py_spec_find_sysline(f, table, fo):
+    """Spec/LinesSpec.v spec_find_sysline: (fo_next, beg, instant, bytes) | None"""
+    lead, gs = py_groups(f, table)
+    off = sum(len(l) for l in lead)
+    for t, ls in gs:
+        n = sum(len(l) for l in ls)
+        if fo < off + n:
+            return (off + n, off, t, b"".join(ls))
+        off += n
+    return None
+
+
+def cache_spec_mismatches(f, table, ops, answers, check_sysline_until=None):
+    """C for the cache mode, python side: indexes of operations whose answer contradicts the spec.
+    find_line / find_sysline / the driver must give the spec answer; find_line_in_block may give Done;
+    a panic is a mismatch unless a drop operation came before it (documented: find_sysline inside the
+    range of a dropped sysline).  Answers of find_sysline after the first find_sysline_in_block that is
+    not part of the leading block-zero-analysis pattern are not judged (check_sysline_until)."""
+    bad = []
+    dropped = False
+    for i, (o, a) in enumerate(zip(ops, answers)):
+        k = o[0]
+        if a["kind"] == "ERR":
+            bad.append((i, "error " + a.get("what", "")))
+            continue
+        if a["kind"] == "PANIC":
+            if not (dropped and k in ("CS", "CSB", "CRD")):
+                bad.append((i, "panic"))
+            continue
+        judge_s = check_sysline_until is None or i < check_sysline_until
+        if k == "CL" or (k == "CLB" and a["res"] is not None):
+            s = py_spec_find_line(f, o[1])
+            got = None if a["res"] is None else (a["res"][0], a["res"][1], a["res"][2], bytes.fromhex(a["res"][6]))
+            if got != s:
+                bad.append((i, "find_line"))
+        elif k == "CS" and judge_s:
+            s = py_spec_find_sysline(f, table, o[1])
+            got = None if a["res"] is None else (a["res"][0], a["res"][1], a["res"][4], bytes.fromhex(a["res"][5]))
+            if got != s:
+                bad.append((i, "find_sysline"))
+        elif k == "CRD" and judge_s:
+            _, gs = py_groups(f, table)
+            got = [(it[3], bytes.fromhex(it[4])) for it in a["items"]]
+            if got != [(t, b"".join(ls)) for t, ls in gs]:
+                bad.append((i, "driver"))
+        if k in ("CDD", "CDS") or (k == "CRD" and "1" in o[1]):
+            dropped = True
+    return bad
+
+
+def first_wild_sysline_in_block(ops, answers=None):
+    """index of the first find_sysline_in_block that is not part of the leading block-zero pattern
+    (in-block line finds, then in-block sysline finds from offset 0, each at the offset the one before
+    returned: the pattern of theorem gate_then_refines), or None"""
+    i = 0
+    while i < len(ops) and ops[i][0] == "CLB":
+        i += 1
+    expect = 0
+    while i < len(ops) and ops[i][0] == "CSB" and expect is not None and ops[i][1] == expect:
+        a = answers[i] if answers is not None and i < len(answers) else None
+        expect = a["res"][0] if a is not None and a.get("kind") == "CSB" and a.get("res") else None
+        i += 1
+    for j in range(i, len(ops)):
+        if ops[j][0] == "CSB":
+            return j
+    return None
+
+
+def shrink_cache_case(bs, f, table, ops, scratch, wild_from, budget=120):
+    """greedy removal of operations while some answer still contradicts the spec; returns (ops, answers)"""
+    def failing(cand):
+        ans, tabs, cops = run_cache_cases([(bs, f, table, cand)], scratch)
+        if ans is None:
+            return None
+        w = first_wild_sysline_in_block(cops[0], ans[0])
+        return (cops[0], ans[0]) if cache_spec_mismatches(f, tabs[0], cops[0], ans[0], w) else None
+    cur = failing(ops)
+    if cur is None:
+        return ops, None
+    if any(a["kind"] == "ERR" and "HANG" in a.get("what", "") for a in cur[1]):
+        budget = min(budget, 6)          # every re-run of a hanging sequence costs the answer timeout
+    runs = 0
+    changed = True
+    while changed and runs < budget:
+        changed = False
+        for i in range(len(cur[0]) - 1, -1, -1):
+            cand = cur[0][:i] + cur[0][i + 1:]
+            runs += 1
+            r = failing(cand) if cand else None
+            if r is not None:
+                cur = r; changed = True
+                break
+            if runs >= budget:
+                break
+    return cur
